@@ -118,7 +118,14 @@ def run(prog, world, sem, rep):
             seqs = []
             for (bb0, idx0, kind0, x0) in sem.ret_sites(h.be):
                 if kind0 == "ok" and bb0 in h.blocks:
-                    seqs.extend(response_sequences(world, h.resolve(x0)))
+                    # (the Response may be assembled by a helper: `Ok(send_response(..)?)` - the helper's own Ok alternatives)
+                    p0 = world.ident(x0.args[0], expand_ws=False) if x0.op == "adt" and x0.args else None
+                    c0 = p0.args[0] if p0 is not None and p0.op == "proj" and p0.info == "ok" and p0.args else None
+                    if c0 is not None and c0.op == "call" and world.callee_body(c0) is not None:
+                        for alt in world._ok_alts(c0, "ok", 0, True) or []:
+                            seqs.extend(response_sequences(world, h.resolve(alt)))
+                    else:
+                        seqs.extend(response_sequences(world, h.resolve(x0)))
             ok = bool(seqs)
             detail = "anchor-lost: no response found in %s" % h.body.path
             for sq in seqs:
